@@ -16,7 +16,7 @@ Import ListNotations.
 Theorem c03_no_stale : forall s st,
   run repaired s = Ok st ->
   forall h k v, In v (field_of st h k) -> alookup (owner v) (L1 (reg st)) = Some v.
-Proof. intros s st H. exact (run_published repaired s st eq_refl H). Qed.
+Proof. intros s st H h k v. exact (run_published (P:=anyk) repaired s st eq_refl H h k v I). Qed.
 
 (* the same read the other way round: if some holder has been handed a version that differs from
    what the lookup returns, the start did not succeed *)
@@ -34,7 +34,7 @@ Qed.
 Theorem c03_no_stale_any_variant : forall vt s st,
   fix_c03 vt = true -> run vt s = Ok st ->
   forall h k v, In v (field_of st h k) -> alookup (owner v) (L1 (reg st)) = Some v.
-Proof. intros vt s st Hf H. exact (run_published vt s st Hf H). Qed.
+Proof. intros vt s st Hf H h k v. exact (run_published (P:=anyk) vt s st Hf H h k v I). Qed.
 
 (* the unrepaired tree violates it: a component that holds its own early proxy (through a slice of an
    interface it implements) and is wrapped into a different proxy after initialization starts
